@@ -236,8 +236,11 @@ def run_loop(case):
     algo = case["algo"]
     d, tau = case["delay"], case["tau"]
     ls = 9
+    # continued runs: the cadence is a function of the absolute step count
+    G = int(np.random.default_rng(case["seed"]).choice([0, 0, 6, 13]))
     cfg = dict(script=[[5, "T"], [8, "U"], [3, "T"]], seed=case["seed"],
-               total_timesteps=case["total"], learning_starts=ls, batch_size=4,
+               total_timesteps=case["total"] + G, global_step=G,
+               learning_starts=ls, batch_size=4,
                update_frequency=2, target_update_frequency=d * 2 + 1, tau=tau,
                policy_delay=d, target_network_delay=d, target_delay=d + 1,
                gradient_steps=case["gradient_steps"], use_checkpoints=False,
@@ -313,8 +316,8 @@ def run_loop(case):
             src, kind, which = spec[:3]
             if tgt not in A or tgt not in B or A[tgt] == B[tgt]:
                 continue
-            # iteration index = env steps executed so far - 1
-            idx = nB - 1
+            # iteration index (absolute) = start + env steps executed so far - 1
+            idx = G + nB - 1
             changed_iters[tgt].add(idx)
             new = tr.leaves[B[tgt]]
             old = tr.leaves[A[tgt]]
@@ -352,7 +355,7 @@ def run_loop(case):
     for tgt, spec in law.items():
         src, kind = spec[:2]
         which = spec[3] if len(spec) > 3 else spec[2]
-        for idx in range(n_total):
+        for idx in range(G, G + n_total):
             res.see("cadence_iterations_checked")
             if idx in changed_iters[tgt] and not is_point(idx):
                 res.violation(
@@ -362,10 +365,10 @@ def run_loop(case):
                 return res
         # sufficiency where visible: at an update point at which the online net
         # (at the end of the iteration) differs from the target before it
-        for idx in range(ls, n_total - 1):
+        for idx in range(max(ls, G), G + n_total - 1):
             if not is_point(idx):
                 continue
-            sA, sB = step_snaps[idx]["snap"], step_snaps[idx + 1]["snap"]
+            sA, sB = step_snaps[idx - G]["snap"], step_snaps[idx - G + 1]["snap"]
             if tgt not in sA or src not in sB:
                 continue
             src_dig = sB[src] if which == "B" else sA[src]
@@ -379,7 +382,7 @@ def run_loop(case):
                 visible_points[tgt].add(idx)
     res.see("visible_update_points", sum(len(v) for v in visible_points.values()))
     res.nontrivial = n_changes >= 5
-    res.state((algo, d, tau))
+    res.state((algo, d, tau, G > 0))
     return res
 
 
